@@ -304,6 +304,9 @@ package control
 // heap selection of the numToEvict least recently used entries: the array is a heap before the first
 // extraction, and after each extraction (root swapped to the end, sift-down from the root over the
 // shrunken prefix) the remaining prefix is a heap again.
+//@ func (*DnsController).currentQtypePrefer
+//@   nonilcheck
+//@   ensures c == nil ==> result == 0
 //@ func (*DnsController).currentOptimisticCacheConfig
 //@   pure
 //@   ensures c != nil ==> maxCacheSize == c.maxCacheSize.Load()
@@ -921,6 +924,27 @@ package control
 //@   modifies *
 //@   at call BatchRemoveDomainRouting#1 assert a1 == cache
 //@   ensures calls("BatchRemoveDomainRouting") == 1
+
+// C08 (the stale window and the size limit are the CONFIGURED ones, across reloads): a reload whose DNS section is
+// unchanged reuses the previous generation's controller; the option it is re-armed with carries the cache behaviour
+// that controller was configured with - optimistic_cache, optimistic_cache_ttl, max_cache_size, ip_version_prefer -
+// read from the controller itself (the plane's own option builder does not carry them).
+//@ func (*ControlPlane).ReuseDNSControllerFrom
+//@   anchorsonly
+//@   nonilcheck
+//@   dyncalls noeffect
+//@   modifies *
+//@   ghostfn en() bool
+//@   ghostfn ttl() int
+//@   ghostfn mx() int
+//@   ghostfn qp() int
+//@   at call currentOptimisticCacheConfig#1 assert a0 == previous.dnsController && calls("dnsControllerOption") == 1
+//@   at call currentOptimisticCacheConfig#1 assume-after nth(result, 0) == en() && nth(result, 1) == ttl() && nth(result, 2) == mx()
+//@   at call currentQtypePrefer#1 assert a0 == previous.dnsController
+//@   at call currentQtypePrefer#1 assume-after result == qp()
+//@   at call reuseDNSControllerFrom#1 assert calls("currentOptimisticCacheConfig") == 1 ==> a2.OptimisticCache == en() && a2.OptimisticCacheTtl == ttl() && a2.MaxCacheSize == mx()
+//@   at call reuseDNSControllerFrom#1 assert calls("currentQtypePrefer") == 1 ==> (qp() == 1 ==> a2.IpVersionPrefer == 4) && (qp() == 28 ==> a2.IpVersionPrefer == 6)
+//@   at call reuseDNSControllerFrom#1 assert calls("currentOptimisticCacheConfig") == 1 || previous.dnsController == nil || previous.dnsController.dnsControllerStore == nil
 
 // C18/C08 (what a new cache entry is made of): the entry built for the controller carries the records and BOTH
 // deadlines it was given, each in its own field - the serving deadline (fixed_domain_ttl applied) and the records'
